@@ -4,9 +4,11 @@
 (* list of the generated kernel stub and the documented list Args(md) of      *)
 (* LFRicArgOrder.tla agree position by position.                              *)
 (*                                                                            *)
-(* File: sequence of cases [id, md, hs, stub, hc, call]; hs/hc = the stub /   *)
-(* the call exists (PSyclone may refuse a metadata); stub, call = sequences   *)
-(* of items [w, a, fs, x, ty, k, r, in] itemised from the generated Fortran.  *)
+(* File: sequence of cases [id, md, hs, stub, hc, call, hp, pcall]; hs/hc/hp  *)
+(* = the stub / the call / its PSyIR form exists (PSyclone may refuse a       *)
+(* metadata); stub, call = sequences of items [w, a, fs, x, ty, k, r, in]     *)
+(* itemised from the generated Fortran; pcall = the same items taken from     *)
+(* the PSyIR expressions KernCallArgList passes (intent "na").                *)
 (* Every case ends in phase "done"; one VERDICT line per failing position:    *)
 (*   [id, v (clause), w |-> [pos, f (field), exp, got, ew, gw]]               *)
 EXTENDS Naturals, Sequences, FiniteSets, TLC, Json, IOUtils
@@ -72,6 +74,16 @@ Verdicts(c) ==
         ELSE {})
   \cup (IF c.hc THEN {[v |-> "CallFollowsDoc", w |-> m] :
                         m \in Mismatches(DocFieldOK, DocFor(c, c.call), c.call)}
+        ELSE {})
+  \* the PSyIR form of the call (expressions and symbol types of
+  \* KernCallArgList): against the stub, and against the written call
+  \cup (IF c.hs /\ c.hp
+        THEN {[v |-> "PsyirCallMatchesStub", w |-> m] :
+                m \in Mismatches(StubFieldOK, c.stub, c.pcall)}
+        ELSE {})
+  \cup (IF c.hc /\ c.hp
+        THEN {[v |-> "PsyirCallMatchesText", w |-> m] :
+                m \in Mismatches(StubFieldOK, c.call, c.pcall)}
         ELSE {})
 
 Init == /\ cid \in 1..Len(Cases)
